@@ -330,10 +330,11 @@ pub fn gen_sprite(rng: &mut Rng, cfg: &GenCfg) -> (Sprite, PaletteProgram) {
     // links: a link targets a frame whose cel on the same layer is a raw image
     if cfg.links && nframes > 1 {
         for l in 0..nlayers {
-            if sp.layers[l].kind != LayerKind::Image {
+            if sp.layers[l].kind == LayerKind::Group {
                 continue;
             }
-            let raw_frames: Vec<u16> = (0..nframes as u16).filter(|f| matches!(sp.cels.get(&(*f, l as u16)).map(|c| &c.content), Some(CelContentM::Image { .. }))).collect();
+            // link targets: cels that hold data of their own (images, and tilemaps on tilemap layers)
+            let raw_frames: Vec<u16> = (0..nframes as u16).filter(|f| matches!(sp.cels.get(&(*f, l as u16)).map(|c| &c.content), Some(CelContentM::Image { .. }) | Some(CelContentM::Tilemap { .. }))).collect();
             if raw_frames.is_empty() {
                 continue;
             }
@@ -357,7 +358,7 @@ pub fn gen_sprite(rng: &mut Rng, cfg: &GenCfg) -> (Sprite, PaletteProgram) {
             let keys: Vec<(u16, u16)> = sp.cels.keys().cloned().filter(|k| k.1 == l as u16).collect();
             for k in keys {
                 if let CelContentM::Link(t) = sp.cels[&k].content {
-                    let ok = matches!(sp.cels.get(&(t, k.1)).map(|c| &c.content), Some(CelContentM::Image { .. }));
+                    let ok = matches!(sp.cels.get(&(t, k.1)).map(|c| &c.content), Some(CelContentM::Image { .. }) | Some(CelContentM::Tilemap { .. }));
                     if !ok {
                         sp.cels.remove(&k);
                     }
